@@ -897,7 +897,8 @@ fn trees_of(spaces: &[TreeSpace], resolving_only: bool) -> Vec<Tree> {
 
 /// Fixed trees beyond the entry bound of the quick spaces: several sibling directories that each have
 /// contents, so that entries below the depth window's lower edge still decide the order of what is yielded
-/// (sorting x min_depth >= 2), also through a followed directory link and three levels deep
+/// (sorting x min_depth >= 2), also through a followed directory link and three levels deep; and link cycles
+/// through two and three subtrees
 fn branchy_trees() -> Vec<Tree> {
     let mk = |items: &[(&str, Node)]| -> Tree {
         let mut t = Tree::new();
@@ -912,11 +913,35 @@ fn branchy_trees() -> Vec<Tree> {
         mk(&[("/a", Node::dir()), ("/b", Node::dir()), ("/c", Node::dir()), ("/a/a", Node::file(b"")), ("/a/b", Node::dir()), ("/b/a", Node::file(b"")), ("/c/a", Node::file(b"")), ("/c/b", Node::file(b""))]),
         mk(&[("/a", Node::dir()), ("/b", Node::dir()), ("/a/a", Node::dir()), ("/b/a", Node::dir()), ("/a/a/a", Node::file(b"")), ("/b/a/a", Node::file(b"")), ("/b/a/b", Node::file(b""))]),
         mk(&[("/a", Node::link("/b")), ("/b", Node::dir()), ("/c", Node::dir()), ("/b/a", Node::file(b"")), ("/b/b", Node::file(b"")), ("/c/a", Node::file(b""))]),
+        // a link cycle that crosses subtrees: neither link points at one of its own ancestors
+        mk(&[("/a", Node::dir()), ("/b", Node::dir()), ("/a/a", Node::link("/b")), ("/b/a", Node::link("/a"))]),
+        mk(&[("/a", Node::dir()), ("/b", Node::dir()), ("/c", Node::dir()), ("/a/a", Node::link("/b")), ("/b/a", Node::link("/c")), ("/c/a", Node::link("/a")), ("/c/b", Node::file(b""))]),
     ]
 }
 
 fn stdfs_trees(t: Tier) -> Vec<Tree> {
-    trees_of(&stdfs_spaces(t).1, true)
+    let mut v = trees_of(&stdfs_spaces(t).1, true);
+    v.extend(dangling_trees());
+    v
+}
+
+/// Fixed trees with a link whose target is missing, for the Stdfs side alone: such an entry is neither a
+/// directory nor a file there, so "grouped by kind" has a third kind to place. The two backends describe
+/// such a link differently (outside the domain in which they are compared), so no Memfs peer runs for them;
+/// every traversal is still judged against the reference with the facts the backend itself reports.
+fn dangling_trees() -> Vec<Tree> {
+    let mk = |items: &[(&str, Node)]| -> Tree {
+        let mut t = Tree::new();
+        for (p, n) in items {
+            t.insert(p, n.clone());
+        }
+        t.fix_link_kinds();
+        t
+    };
+    vec![
+        mk(&[("/a", Node::dir()), ("/b", Node::link("/zz")), ("/c", Node::dir()), ("/d", Node::file(b"")), ("/a/a", Node::file(b""))]),
+        mk(&[("/a", Node::file(b"")), ("/b", Node::link("/zz")), ("/c", Node::dir()), ("/c/a", Node::link("/zz")), ("/c/b", Node::dir()), ("/c/c", Node::file(b""))]),
+    ]
 }
 
 // -------------------------------------------------------------------------------------------------
@@ -968,7 +993,9 @@ fn both_tree(sb: &Sandbox, tree: &Tree, cnt: &mut Counts, sink: Sink<'_, '_>, be
     if let Some(m) = facts_sane(tree, &sfacts) {
         sink.other("entry() accessor-kind-mismatch stdfs", format!("stdfs tree [{}]: {}", tree.render(), m), tj());
     }
-    if sfacts != mfacts {
+    // trees with a link that does not resolve: Stdfs alone (see dangling_trees)
+    let peer = tree.links_resolve();
+    if peer && sfacts != mfacts {
         sink.other("entry() accessors backends-disagree", format!("tree [{}]: stdfs {:?} memfs {:?}", tree.render(), sfacts, mfacts), tj());
     }
     let budget = step_budget(tree);
@@ -981,6 +1008,9 @@ fn both_tree(sb: &Sandbox, tree: &Tree, cnt: &mut Counts, sink: Sink<'_, '_>, be
         let mut sk: Vec<(Opts, Vec<Obs>, bool)> = vec![];
         let mut mk: Vec<(Opts, Vec<Obs>, bool)> = vec![];
         sweep_start(&senv, si, s, cnt, sink, Some(&mut sk));
+        if !peer {
+            continue;
+        }
         // the Memfs side is judged by the Memfs half of the check; here it only serves as the peer
         let was = sink.mute;
         sink.mute = true;
@@ -999,6 +1029,9 @@ fn both_tree(sb: &Sandbox, tree: &Tree, cnt: &mut Counts, sink: Sink<'_, '_>, be
         }
     }
     let sh = check_helpers("stdfs", &std, &prefix, tree, cnt, sink);
+    if !peer {
+        return Ok(());
+    }
     let was = sink.mute;
     sink.mute = true;
     let mh = check_helpers("memfs", &mem, &prefix, tree, &mut mcnt, sink);
